@@ -57,12 +57,16 @@ def gen(rng, tier, n):
                                                              {"name": "P", "tag": 'json:"p"', "t": {"k": "named", "name": nm}},
                                                              {"name": "S", "tag": 'json:"s,omitempty"', "t": {"k": "slice", "e": {"k": "ptr", "e": {"k": "named", "name": nm}}}}]},
                                 {"k": "map", "key": "string", "e": {"k": "named", "name": nm}}, {"k": "named", "name": "Twice"}])
-        elif r < 0.17:
+        elif r < 0.18:
             # the declared two-level embedding of the bank: an override for the innermost (or the middle) embedded type
-            t = {"k": "named", "name": rng.choice(["DocT", "DocP", "BaseT", "TwoEmb", "TwoEmbDeep"])}
+            # (also: the embedded type's NAME is unexported, the embedded field is tagged json:"-")
+            outer, inners = rng.choice([("DocT", ["IDt", "BaseT"]), ("DocP", ["IDt", "BaseT"]), ("BaseT", ["IDt"]), ("TwoEmb", ["IDt", "Inner"]),
+                                        ("TwoEmbDeep", ["IDt", "TwoEmb", "Inner"]), ("EmbedUnexported", ["unexportedInner"]),
+                                        ("EmbedDash", ["Inner"]), ("EmbedVal", ["Inner"]), ("Shadow", ["Inner"])])
+            t = {"k": "named", "name": outer}
             if rng.random() < 0.3:
                 t = {"k": rng.choice(["slice", "ptr"]), "e": t}
-            opts["typeSchemas"] = [{"name": rng.choice(["IDt", "IDt", "BaseT", "TwoEmb"]), "schema": rng.choice(TS_EMBED_POOL)}]
+            opts["typeSchemas"] = [{"name": rng.choice(inners), "schema": rng.choice(TS_EMBED_POOL)}]
         elif r < 0.3 and gt.GEN["embedding"]:
             # a TypeSchemas override for a type that is embedded (directly or two levels down) in the type under inference
             outer = rng.choice(sorted(gt.GEN["embedding"]))
@@ -181,6 +185,10 @@ def judge(o, go, m):
             if [x for x in order if x in rest] != rest or not set(rest) <= set(go.get("properties") or []):
                 return "violation", "%s with a TypeSchemas override of an embedded type: properties %r (order %r) lose fields that are not promoted " \
                                     "through the overridden type: %r" % (go.get("gotype"), go.get("properties"), order, rest)
+            if go.get("override_missing") or go.get("override_leaked"):
+                return "violation", "%s: the TypeSchemas entry of an embedded type is not substituted: its properties %r are missing, the fields " \
+                                    "it replaces %r are listed (properties %r)" % (go.get("gotype"), go.get("override_missing"),
+                                                                                  go.get("override_leaked"), go.get("properties"))
     # correspondence with the model
     if mo.get("outcome") in (None, "unmodelled"):
         return "agree", ""
